@@ -10,7 +10,7 @@ import oracle_dataflow as od
 import runner
 from framework import Outcome
 
-CAPTURABLE = ("c1", "c2", "c3", "accum", "sample", "samplemid", "timer0", "timer1", "suml", "sumb")
+CAPTURABLE = ("c1", "c2", "c3", "accum", "sample", "samplemid", "timer0", "timer1", "suml", "sumb", "lift2")
 
 
 def descendants(prog, roots):
@@ -104,7 +104,7 @@ class C15:
             # self-scheduling node whose timer is pending in the throwing cycle); oracle: per-key solo reference
             return dict(kind="map", inner=p_c10.PROPERTY.gen(seed, funcs=p_c10.FAILING))
         rng = random.Random(seed)
-        prog = gen_dataflow.gen_program(rng.getrandbits(48), size=rng.randint(3, 14), allow=dict(how=("inline", "nested"), ite=rng.random() < 0.4))
+        prog = gen_dataflow.gen_program(rng.getrandbits(48), size=rng.randint(3, 14), allow=dict(how=("inline", "nested"), ite=rng.random() < 0.4, lift=True))
         s, e = prog["window"]
         prog["window"] = (s, min(e, s + 16))
         cands = [n for n in prog["nodes"] if n["kind"] in CAPTURABLE and n.get("id")]
